@@ -89,13 +89,13 @@ func (c offIntCodec) Read(data []byte, ptr unsafe.Pointer, wt plenccore.WireType
 // ---- case
 
 type c17Reg struct {
-	Str     bool  `json:"str,omitempty"` // markStrCodec registered for MStr (untagged)
-	Marker  byte  `json:"marker,omitempty"`
-	Int     bool  `json:"int,omitempty"` // offIntCodec for MInt (untagged)
-	Offset  int64 `json:"offset,omitempty"`
-	TagInt  bool  `json:"tagint,omitempty"` // offIntCodec for (MInt, "off")
-	TagOff  int64 `json:"tagoff,omitempty"`
-	BQ      bool  `json:"bq,omitempty"` // BQTimestampCodec for time.Time
+	Str    bool  `json:"str,omitempty"` // markStrCodec registered for MStr (untagged)
+	Marker byte  `json:"marker,omitempty"`
+	Int    bool  `json:"int,omitempty"` // offIntCodec for MInt (untagged)
+	Offset int64 `json:"offset,omitempty"`
+	TagInt bool  `json:"tagint,omitempty"` // offIntCodec for (MInt, "off")
+	TagOff int64 `json:"tagoff,omitempty"`
+	BQ     bool  `json:"bq,omitempty"` // BQTimestampCodec for time.Time
 }
 
 type c17Inst struct {
